@@ -24,7 +24,7 @@ mkdir -p $H && rsync -a --delete --exclude target /verif/harness/ $H/
 sed -i "s#/repo/#$WT/#g" $H/vprop/Cargo.toml $H/netsim/Cargo.toml
 sed -i "s#^target-dir.*#target-dir = \"$TGT\"#" $H/.cargo/config.toml
 rm -f $TGT/debug/$id
-(cd $H && CARGO_NET_OFFLINE=true CARGO_TARGET_DIR=$TGT cargo build --offline --bin $id $(grep -q "^ext_$id = " netsim/Cargo.toml && echo "--features netsim/ext_$id") 2>&1 | tail -3)
+(cd $H && CARGO_NET_OFFLINE=true CARGO_TARGET_DIR=$TGT cargo build --offline --bin $id $([ -f netsim/src/bin/$id.rs ] && echo "--features $(grep -o "^ext_c[0-9]*" netsim/Cargo.toml | sed "s#^#netsim/#" | paste -sd,)") 2>&1 | tail -3)
 [ -x $TGT/debug/$id ] || { echo "build failed"; exit 2; }
 cd /verif && $TGT/debug/$id --no-evidence "$@"
 rc=$?
